@@ -4,7 +4,7 @@ CRATE = "c13"
 COQ_DIR = "C13"
 PROFILES = ["debug"]
 CORR_IMPORT = "From RlibV Require Import C13.Model C13.Corr.\nOpen Scope Z_scope."
-AUDIT_IMPORT = "From mathcomp Require Import all_ssreflect.\nFrom RlibV Require Import C13.Model C13.Properties."
+AUDIT_IMPORT = "From mathcomp Require Import all_ssreflect.\nFrom RlibV Require Import C13.Model C13.Ghost C13.Properties."
 EXPLAIN = "explain"
 AXIOM_ALLOW = []
 THEOREMS = [
@@ -21,6 +21,22 @@ THEOREMS = [
     ("c13_sizes", "forall N : nat, size (mnp (sieve N)) = N.+1 /\\ size (isp (sieve N)) = N.+1"),
     ("c13_break_is_takewhile",
      "forall (n i : nat) (ps m : seq nat), 0 < i -> 1 \\notin ps -> inner n i ps m = inner_tw n i ps m"),
+    ("c13_factorize", "forall N n : nat, 0 < n <= N -> factorize (sieve N) n = Some (prime_decomp n)"),
+    ("c13_factorize_spec",
+     "forall N n : nat, 0 < n <= N -> exists2 f, factorize (sieve N) n = Some f & "
+     "[/\\ n = \\prod_(pc <- f) pc.1 ^ pc.2, all (fun pc => prime pc.1 && (0 < pc.2)) f & sorted ltn (unzip1 f)]"),
+    ("c13_factorize_one", "forall N : nat, factorize (sieve N) 1 = Some [::]"),
+    ("c13_all_limits_upto_K",
+     "forall N : nat, N <= 600 -> "
+     "[/\\ forall n, 1 < n <= N -> min_prime (sieve N) n = pdiv n, "
+     "forall n, n <= N -> is_prime (sieve N) n = prime n, "
+     "primes_of (sieve N) = [seq p <- iota 0 N.+1 | prime p] & "
+     "forall n, 0 < n <= N -> factorize (sieve N) n = Some (prime_decomp n)]"),
+    ("c13_written_once",
+     "forall N : nat, (sieve_g N).1 = sieve N /\\ forall m, nth 0 (sieve_g N).2 m = (1 < m <= N)"),
+    ("c13_written_once_upto",
+     "forall n k : nat, k.+1 < n -> (sieve_upto_g n k).1 = sieve_upto n k /\\ "
+     "forall x, nth 0 (sieve_upto_g n k).2 x = (nth 0 (mnp (sieve_upto n k)) x != 0)"),
 ]
 SHARD = 160
 SEARCH_MAX = 1000
